@@ -43,7 +43,10 @@ def main():
             caught[p] = {"exit": rc, "rules": sorted({l.split()[1] for l in out.splitlines() if l.startswith("  rule ")}),
                          "first": next((l.strip()[:300] for l in out.splitlines() if l.startswith("  rule ")), None)}
         if tests:
-            rc, out = sh(f"/venv/bin/python -m pytest -q -p no:cacheprovider {tests}", cwd=wt, env=envs, timeout=6000)
+            for attempt in range(2):  # the xdist run occasionally hangs with idle workers on a loaded machine: bounded, one retry
+                rc, out = sh(f"timeout -k 10 1800 /venv/bin/python -m pytest -q -p no:cacheprovider {tests}", cwd=wt, env=envs, timeout=2000)
+                if rc != 124:
+                    break
             log["tests_cmd"] = tests
             log["tests_rc"] = rc
             log["tests_tail"] = out.strip().splitlines()[-1] if out.strip() else ""
